@@ -2,6 +2,7 @@ import YakModel.Scan
 import YakModel.Storage
 import YakModel.Cursor
 import YakModel.Shape
+import YakModel.BTreeOps
 /-!
 # Transcript checker for `seqdrv` (`yakmodel seq`)
 
@@ -246,8 +247,25 @@ def bump (st : St) (k : String) : St :=
   if st.stats.any (·.1 == k) then { st with stats := st.stats.map (fun x => if x.1 == k then (k, x.2 + 1) else x) }
   else { st with stats := st.stats ++ [(k, 1)] }
 
-def finishDump (st : St) (n : List UInt8) : St × Option String :=
+/-- the structural step check (class "shape"): every layer present in the previous dump of this
+    storage and in the new one must be related by the step `BTreeOps` computes from the C++ rules. -/
+def shapeSteps (st : St) (prev dump : List (List UInt8 × BTree)) : St × List (String × String) :=
+  dump.foldl (fun (acc : St × List (String × String)) (p, bt) =>
+    match prev.find? (·.1 == p) with
+    | none => acc
+    | some (_, old) =>
+      match BTreeOps.stepCheck old bt with
+      | none => (bump acc.1 "shape_no_verdict", acc.2)
+      | some (labels, err) =>
+        let st := labels.foldl bump (bump acc.1 "shape_steps")
+        (st, acc.2 ++ (match err with
+          | some m => [("shape", s!"layer {bytesHex p}: {m}")]
+          | none => []))) (st, [])
+
+/-- returns the differences found as (class, message): class "dump" as before, then class "shape" -/
+def finishDump (st : St) (n : List UInt8) : St × List (String × String) :=
   let dump := st.dumpAcc.reverse
+  let prev := match st.lastDump.find? (·.1 == n) with | some (_, d) => d | none => []
   let st := { st with dumpName := none, dumpAcc := [], lastDump := (n, dump) :: st.lastDump.filter (·.1 != n) }
   -- invariants on the implementation's own structure
   let invOk := dump.all (fun (p, bt) => checkLayer p bt) && checkLinks dump
@@ -255,14 +273,15 @@ def finishDump (st : St) (n : List UInt8) : St × Option String :=
   let st := bump st "dumps"
   let st := if dump.any (fun (_, bt) => match bt with | .interior .. => true | _ => false) then bump st "dumps_with_interior" else st
   let st := if dump.length > 1 then bump st "dumps_multi_layer" else st
-  if !invOk then (st, some s!"invariant check failed on the implementation's dump of storage {bytesHex n}")
+  let (st, shapeErrs) := shapeSteps st prev dump
+  if !invOk then (st, ("dump", s!"invariant check failed on the implementation's dump of storage {bytesHex n}") :: shapeErrs)
   else match good with
   | [] =>
     let msg := match st.cands.head? with
       | some s => (match s.tree? n with | some t => describeMismatch t dump | none => "storage missing in model")
       | none => "no candidate"
-    (st, some s!"dump of storage {bytesHex n} differs from the model: {msg}")
-  | g => ({ st with cands := g }, none)
+    (st, ("dump", s!"dump of storage {bytesHex n} differs from the model: {msg}") :: shapeErrs)
+  | g => ({ st with cands := g }, shapeErrs)
 
 def splitAtTok (s : String) (tok : String) : String × String :=
   match s.splitOn tok with
@@ -361,8 +380,7 @@ def stepLine (st : St) (line : String) : St × List (String × String) :=
       | some pl =>
         let st := { st with dumpAcc := pl :: st.dumpAcc, dumpLeft := st.dumpLeft - 1 }
         if st.dumpLeft == 0 then
-          let (st', e) := finishDump st n
-          (st', match e with | some m => [("dump", m)] | none => [])
+          finishDump st n
         else (st, [])
   else if line.startsWith "WALKERR" then (st, [("walker", line)])
   else (st, [("misc", "bad-line")])
